@@ -84,6 +84,8 @@ impl VmCase {
 // Panic capture
 
 static PANIC_MSG: Mutex<Option<String>> = Mutex::new(None);
+/// > 0 while some thread is inside `catch` (panics of the code under test are then recorded, not printed).
+static CATCHING: AtomicU64 = AtomicU64::new(0);
 
 pub fn install_panic_hook() {
     std::panic::set_hook(Box::new(|info| {
@@ -97,6 +99,10 @@ pub fn install_panic_hook() {
             .cloned()
             .or_else(|| info.payload().downcast_ref::<&str>().map(|s| s.to_string()))
             .unwrap_or_else(|| "<non-string panic>".into());
+        if CATCHING.load(Ordering::SeqCst) == 0 {
+            // a panic of the harness itself: make it visible (the driver reports the shard as inconclusive)
+            eprintln!("harness panic: {msg} @ {loc}");
+        }
         let mut g = PANIC_MSG.lock().unwrap_or_else(|e| e.into_inner());
         if g.is_none() {
             *g = Some(format!("{msg} @ {loc}"));
@@ -107,7 +113,10 @@ pub fn install_panic_hook() {
 /// Run `f`, turning a panic into `Err(message @ location)`.
 pub fn catch<T>(f: impl FnOnce() -> T) -> Result<T, String> {
     *PANIC_MSG.lock().unwrap_or_else(|e| e.into_inner()) = None;
-    match std::panic::catch_unwind(std::panic::AssertUnwindSafe(f)) {
+    CATCHING.fetch_add(1, Ordering::SeqCst);
+    let r = std::panic::catch_unwind(std::panic::AssertUnwindSafe(f));
+    CATCHING.fetch_sub(1, Ordering::SeqCst);
+    match r {
         Ok(v) => Ok(v),
         Err(_) => Err(PANIC_MSG
             .lock()
